@@ -260,6 +260,50 @@ def run(chk):
            "" if ok else "send_all_pending can return with the sent messages still parked: the next convention notification re-sends every StartNodes",
            key=f"{_M}:Dispatcher.send_all_pending:reset")
 
+    # node actors are placed by capability ({"ip": <host>}): an actor system qualifies only if it DECLARES the required capability with the required value — a system that does
+    # not declare it at all (the coordinator's own system: {"coordinator": True}) must not qualify, or the remote host's nodes are started on the coordinator
+    from sa import minieval as _me12
+    from sa.tables import decide as _dec12, Unsupported as _Uns12
+    from sa.sym import UnknownAtom as _UA12
+    am = repo.module("esrally/actor.py")
+    cc = am.methods(am.cls("RallyActor")).get("actorSystemCapabilityCheck")
+    if cc is None:
+        raise AnchorMissing("RallyActor.actorSystemCapabilityCheck")
+    cps = params_of(cc)
+    lp12 = [n for n in walk_body(cc) if isinstance(n, ast.For) and isinstance(n.iter, ast.Call) and u(n.iter.func) == f"{cps[-1]}.items" and isinstance(n.target, ast.Tuple) and len(n.target.elts) == 2]
+    if not lp12:
+        chk.unknown("O12.1c", "actorSystemCapabilityCheck is not a loop over requirements.items()", cc)
+    else:
+        nm_, vl_ = (t.id for t in lp12[0].target.elts)
+        for label, caps, want in (("capability declared with the required value", {"ip": "10.0.0.2"}, True), ("capability declared with another value", {"ip": "10.0.0.9"}, False),
+                                  ("capability not declared at all", {"coordinator": True}, False)):
+            env_ = {cps[-2]: caps, cps[-1]: {"ip": "10.0.0.2"}, nm_: "ip", vl_: "10.0.0.2"}
+
+            def atom12(n, env, env_=env_):
+                try:
+                    return bool(_me12.ev(n, dict(env_)))
+                except _me12.CannotEval:
+                    return None
+
+            def hook12(s_, env, b, env_=env_):
+                # locals of the loop body are evaluated as they are bound
+                if isinstance(s_, ast.Assign) and len(s_.targets) == 1 and isinstance(s_.targets[0], ast.Name):
+                    try:
+                        env_[s_.targets[0].id] = _me12.ev(s_.value, dict(env_))
+                        return "skip"
+                    except _me12.CannotEval:
+                        return None
+                return None
+
+            try:
+                out = _dec12(lp12[0].body, atom12, {}, on_stmt=hook12)
+            except (_Uns12, _UA12) as e:
+                chk.unknown("O12.1c", f"capability check body is not a decision over (declared value, required value): {e}", cc)
+                break
+            got = not (out.kind == "return" and isinstance(out.value, ast.Constant) and out.value.value is False)
+            chk.ob("O12.1c", f"capability check: {label} -> {'qualifies' if want else 'does not qualify'}", got == want, cc, f"{'qualifies' if got else 'does not qualify'}",
+                   key=f"esrally/actor.py:RallyActor.actorSystemCapabilityCheck:{label}")
+
     # ---- O12.2 external bypass ---------------------------------------------------------------------------
     chk.rule("O12.2", "on the externally-provisioned edge of start and of stop no actor is created and no StartEngine/StartNodes/StopNodes is sent; create() raises for external", 3,
              "benchmark-only pipeline: Rally would try to provision/stop a cluster it does not own")
@@ -443,6 +487,12 @@ def run(chk):
     nsx = [n for m in repo.all_modules() for n in ast.walk(m.tree) if isinstance(n, ast.Call) and last_attr(n.func) == "NodesStopped"
            and isinstance(source.parent(n), ast.Call) and source.enclosing_func(n) is not ur]
     chk.ob("O12.5", "NodesStopped constructed only in the node actor", not nsx, nsx[0] if nsx else ur, "")
+
+    from rules.C13 import cleanup_isolation_rule
+
+    pv_ = repo.module("esrally/mechanic/provisioner.py")
+    chk.use(pv_)
+    cleanup_isolation_rule(chk, "O12.5", pv_)
 
     # ---- O12.6 launcher stop stores system metrics for every node --------------------------------------------------------------------
     chk.rule("O12.6", "each launcher's stop() stores system metrics for every node on every normal path of the loop body (conditional only on the store being present)", 2,
